@@ -1,6 +1,6 @@
 # C13 — rotation yields self-contained files and loses, repeats or reorders nothing.
-import common, schema, histgen, p_hist
-THEOREMS = ["C13_frozen", "C13_stream", "C13_empty_output", "C13_restart", "C13_header_has_all_params", "C13_outputs_self_contained",
+import common, schema, histgen, p_hist, p_xw
+THEOREMS = ["C13_frozen", "C13_stream", "C13_empty_output", "C13_restart", "C13_header_has_all_params", "C13_outputs_self_contained", "C13_writer_receives_outputs",
             "C13_records_across_outputs", "C13_nonvacuous"]
 EXTRA_PROPERTY_FILES = ("Properties_format",)   # obligations over the regenerated Gen_format.v (translator/format.py)
 def gen_cases(sch, tier, rng):
@@ -83,6 +83,13 @@ def run(ctx):
     for f in extra_fails:
         f[1]["oracle"] = [("C13", f[2])]
     cases = cases + yield_cases
+    # the exporter on its output writer (theorem C13_writer_receives_outputs): results, counters and the system-call trace, write by write
+    xctx = dict(ctx, impl=common.build_impl("plain"))
+    xcases, xdiffs, xfails, xstats = p_xw.section(xctx, p_xw.gen(ctx["rng"], 60 if ctx["tier"] == "quick" else 2500, comps=("none",)), "x")
+    for c in xcases: c["oracle"] = []
+    for f in xfails: f[1]["oracle"] = [("C13", f[2])]
+    cases = cases + xcases; diffs = diffs + xdiffs
+    ctx["report"].cov.update(xstats)
     return p_hist.finish(ctx, "C13", cases, diffs,
         "random exporter histories with many rotations (with and without export of the buffered block, back to back, before the first "
         "block), parameter sets added between outputs and switched, max_block_items 0..10000. Every closed output is parsed independently "
@@ -90,4 +97,6 @@ def run(ctx):
         "are compared with the submissions; the library's own reader is run on every output; plus rotations of NAMED outputs in the plain / gzip / xz "
         "modes through the real exporter, each closed file decompressed and parsed independently, records in rotation order compared; and, on every "
         "history satisfying the hypotheses of C13_records_across_outputs (evaluated by the extracted model), the records the library's reader returns "
-        "for all outputs in rotation order must equal the theorem's right-hand side", related=("C12", "C01", "C02"))
+        "for all outputs in rotation order must equal the theorem's right-hand side; and exporter histories on plain named / descriptor outputs under system-call interposition: every "
+        "return value and counter and the open/write/close/rename trace WRITE BY WRITE against the model chain exporter -> encoder chunks "
+        "(coq/ExporterIO.v) -> writer (coq/Writer.v)", related=("C12", "C01", "C02"))
